@@ -16,6 +16,9 @@ use vp_sim::recadapters::{Call, StrategyScript, TargetRec};
 #[derive(Clone, Debug, PartialEq)]
 enum Second {
     SameIpOtherPort,
+    /// the same cookie as a sibling instance whose clock runs 90 s ahead would have issued it
+    /// (same fields, timestamp + 90 s, signed with the configured secret): still within the expiry
+    SameIpClockAhead,
     OtherIp,
     /// wait (real time) until the cookie is older than the configured expiry
     AfterExpiry,
@@ -54,7 +57,8 @@ fn generate(cli: &Cli) -> Vec<Case> {
             _ => Some(rng.bytes_between(2, 64)),
         };
         let second = match (i / 6) % 4 {
-            0 | 1 => Second::SameIpOtherPort,
+            0 => Second::SameIpOtherPort,
+            1 => if rng.bool() { Second::SameIpClockAhead } else { Second::SameIpOtherPort },
             _ => Second::OtherIp,
         };
         let nprops = (i % 4) as usize;
@@ -282,12 +286,27 @@ fn run_case(c: &Case) -> Outcome {
     let mut accepted_second = None;
     if let Some(cookie) = issued.clone() {
         let addr2: SocketAddr = match c.second {
-            Second::SameIpOtherPort | Second::AfterExpiry => SocketAddr::new(c.client_addr.ip(), c.client_addr.port().wrapping_add(4321).max(1)),
+            Second::SameIpOtherPort | Second::SameIpClockAhead | Second::AfterExpiry => SocketAddr::new(c.client_addr.ip(), c.client_addr.port().wrapping_add(4321).max(1)),
             Second::OtherIp => "192.0.2.201:40000".parse().expect("addr"),
         };
         if c.second == Second::AfterExpiry {
             std::thread::sleep(Duration::from_millis(3200));
         }
+        let cookie = match (&c.second, &c.secret) {
+            (Second::SameIpClockAhead, Some(secret)) if cookie.len() > 32 => match serde_json::from_slice::<Value>(&cookie[32..]) {
+                Ok(mut j) => {
+                    if let Some(ts) = j["timestamp"].as_u64() {
+                        j["timestamp"] = json!(ts + 90);
+                    }
+                    let body = serde_json::to_vec(&j).expect("json");
+                    let mut out = hmac_sha256(secret, &body).to_vec();
+                    out.extend_from_slice(&body);
+                    out
+                }
+                Err(_) => cookie,
+            },
+            _ => cookie,
+        };
         // the client also presents the session cookie it was given (if any)
         let session2 = f1.store_cookies.iter().find(|s| s.0 == SESSION_KEY).map(|s| s.1.clone()).or(presented_session_cookie.clone());
         let sc2 = scenario(c, Intent::Transfer, addr2, Some(cookie), session2.clone(), c.seeds.1);
@@ -295,7 +314,7 @@ fn run_case(c: &Case) -> Outcome {
         let f2 = facts(&run2);
         sample["conn2"] = json!({"from": addr2.to_string(), "should_authenticate": f2.enc_flag, "clientbound": run2.client.names(), "authenticate_calls": f2.auth_calls.len(), "result": run2.result.kind()});
         let mut bad = |sig: String, what: String, d: Value| findings.push(Finding { signature: sig, what, witness: witness(&sc2, &run2, d) });
-        let expect_accept = c.second == Second::SameIpOtherPort;
+        let expect_accept = matches!(c.second, Second::SameIpOtherPort | Second::SameIpClockAhead);
         accepted_second = f2.enc_flag.map(|f| !f);
         match f2.enc_flag {
             None => bad(format!("second-connection-no-encryption-request/{:?}", c.second), format!("second connection ended before the Encryption Request ({})", run2.result.kind()), json!({})),
